@@ -293,8 +293,10 @@ class Plan(object):
                 nf = FOOTER.get(kind, 0)
                 ph = [steps[:4], steps[4:len(steps) - nf], steps[len(steps) - nf:]]
         elif fam == "t1":
-            if mop in ("ndef", "protect"):
+            if mop == "ndef":
                 ph = [steps[:1], steps[1:]]
+            elif mop == "protect":
+                ph = [steps[:1], steps[1:nndef], steps[nndef:]]
             elif mop == "dump":
                 k = 2 if len(steps) > 1 and steps[1][0] == "R15" else 1
                 ph = [steps[:1], steps[1:k], steps[k:]]
@@ -352,7 +354,9 @@ def probe_cfg():
         return "0" if execute(kind, op, script)["out"] == "exc " + bad else "1"
     return (bit("t3", "write", "ttt", "TypeError") + bit("t3", "present", "ooo", "UnboundLocalError")
             + bit("t3", "present", "0", "IndexError") + bit("t2big", "write", "ax", "AssertionError")
-            + bit("t4", "ndef", "o", "BrokenLinkError"))
+            + bit("t4", "ndef", "o", "BrokenLinkError")
+            # not a C16 repair: does tt1.read_tlv swallow the command error behind the first TLV byte (fixes/C08)
+            + bit("t1d", "ndef", "attt", "TagCommandError(0)"))
 
 
 NOSTATUS = {"rr", "sc", "ss0", "ss1", "ss2", "ss3"}
@@ -493,7 +497,8 @@ def run(ck):
     rng = ck.rng
     cfg = probe_cfg()
     ck.notes.append("tree under test: F17 %s, F31(Type 3) %s, F32 %s, sector-select assert %s, ISO-DEP unknown CommunicationError %s"
-                    % tuple("repaired" if b == "1" else "as found" for b in cfg))
+                    % tuple("repaired" if b == "1" else "as found" for b in cfg[:5]))
+    ck.notes.append("tt1.read_tlv catches the command error for %s" % ("the whole TLV (C08 repair)" if cfg[5] == "1" else "the first TLV byte only"))
     reqs, reals, meta = [], [], []
     for kind in rs.KINDS:
         for op in OPS:
